@@ -77,6 +77,10 @@ class Run:
             e = ent[r.snap[1]]
             e[0] -= 1
             e[1] -= r.snap[3]
+        if self.spec.get("probe_all") and lab.env.now >= self.spec.get("probe_from", 0):
+            # a user may poll the counters of any configured flow, also one that has not sent anything yet (0 packets, 0 bytes)
+            for f in self.flows:
+                ent.setdefault(f, [0, 0])
         tot = 0
         for f, (n, b) in ent.items():
             tot += n
